@@ -422,6 +422,10 @@ pub fn set_cfg(f: impl FnOnce(&mut Cfg)) {
 pub fn cfg() -> Cfg {
     with(|st| st.cfg.clone())
 }
+/// Ordinal the next fault-eligible store request will get (base for a `forced` fault relative to "now").
+pub fn store_gate_ord() -> u64 {
+    with(|st| st.store_gate_ord)
+}
 /// Switch all injected events off (final, fault-free phase of a run).
 pub fn faults_off() {
     with(|st| {
